@@ -43,6 +43,7 @@ def plan(tier, seed):
     # wide groups: 10-16 nodes of one type (size thresholds of the index-based / matrix edge forms)
     n_w = 24 if tier == 'quick' else 500
     cases += [{'family': 'wide', 'cseed': rnd.randrange(1 << 30)} for _ in range(n_w)]
+    cases += [{'family': 'shared_operator', 'cseed': rnd.randrange(1 << 30)} for _ in range(16 if tier == 'quick' else 300)]
     # gamma-kernel delays: the set of (order, rate) chains must not depend on vectorization
     cases += [{'family': 'gamma_kernels', 'cseed': rnd.randrange(1 << 30)} for _ in range(24 if tier == 'quick' else 400)]
     return cases
@@ -209,6 +210,14 @@ def make_spec(case, opened):
         rnd = random.Random(case['cseed'])
         want = case.get('want')
         for attempt in range(400):
+            if case.get('family') == 'shared_operator':
+                # node types that share one operator template (each type forms its own vectorization group, the shared operator's
+                # variables are merged per group)
+                spec = gen.gen_shared_op_net(rnd)
+                f, r = gen.features(spec)
+                if (set(opened) - {want}) & ((set(r) - {'vec_partial_input_default'}) | vec_risks(spec)):
+                    continue
+                break
             wide = case.get('family') == 'wide'
             et_mode = case.get('family') == 'edge_templates' or want in ET_FOCUS
             pool = {'derived': gen.DERIVED_POOL, 'main': gen.MAIN_POOL}.get(case.get('pool'), gen.SAFE_POOL)
@@ -232,7 +241,7 @@ def make_spec(case, opened):
                         if d[0] == 'in':
                             d[1] = 0.0
             spec = gen.individualize(base, rnd, params=rnd.choice(['different', 'different', 'equal']))
-            if not want and rnd.random() < 0.2:
+            if not want and rnd.random() < 0.2 and not case.get('no_int_decl'):
                 int_declared_constants(spec, rnd)
             spec = add_edges(spec, rnd, uniform)
             if et_mode:
